@@ -45,6 +45,8 @@ pub struct RInv {
     pub run_in: Option<PathBuf>,
     pub timeout_s: u64,
     pub verbose: bool,
+    /// send SIGINT to n2's process group this many ms after the start (Ctrl-C)
+    pub sigint_after_ms: Option<u64>,
 }
 
 impl Default for RInv {
@@ -63,6 +65,7 @@ impl Default for RInv {
             run_in: None,
             timeout_s: 60,
             verbose: false,
+            sigint_after_ms: None,
         }
     }
 }
@@ -126,6 +129,8 @@ pub struct ROut {
     pub stderr: Vec<u8>,
     pub events: Vec<AgentEv>,
     pub wall_ms: u64,
+    /// CLOCK_MONOTONIC ns at which SIGINT was sent, if it was
+    pub sigint_ns: Option<u64>,
 }
 
 impl ROut {
@@ -498,10 +503,19 @@ pub fn run_real(env: &RealEnv, w: &World, inv: &RInv) -> ROut {
     });
     let deadline = Instant::now() + Duration::from_secs(inv.timeout_s);
     let mut timed_out = false;
+    let mut sigint_ns: Option<u64> = None;
     let status = loop {
         match child.try_wait() {
             Ok(Some(st)) => break Some(st),
             Ok(None) => {
+                if let (Some(ms), None) = (inv.sigint_after_ms, sigint_ns) {
+                    if t0.elapsed().as_millis() as u64 >= ms {
+                        let mut ts = libc::timespec { tv_sec: 0, tv_nsec: 0 };
+                        unsafe { libc::clock_gettime(libc::CLOCK_MONOTONIC, &mut ts) };
+                        sigint_ns = Some(ts.tv_sec as u64 * 1_000_000_000 + ts.tv_nsec as u64);
+                        unsafe { libc::kill(-pid, libc::SIGINT) };
+                    }
+                }
                 if Instant::now() > deadline {
                     timed_out = true;
                     unsafe { libc::kill(-pid, libc::SIGKILL) };
@@ -548,6 +562,7 @@ pub fn run_real(env: &RealEnv, w: &World, inv: &RInv) -> ROut {
         stderr,
         events: parse_events(&w.dir),
         wall_ms: t0.elapsed().as_millis() as u64,
+        sigint_ns,
     }
 }
 
